@@ -1,7 +1,7 @@
 (* Prop_C07.v — property C07 (nitrogen pools stay non-negative, organic/fertiliser bookkeeping is exact),
    stated about NitroModel read over the reals. *)
-From Coq Require Import ZArith Reals List Bool.
-From Hermes Require Import Num RUtil NitroModel NitroProofs.
+From Coq Require Import ZArith Reals List Bool Lra.
+From Hermes Require Import Num RUtil NitroModel NitroProofs NitroRun.
 Local Open Scope R_scope.
 
 (* what mineralisation removes from an organic pool is exactly what its counter gains (both temperature
@@ -30,6 +30,26 @@ Theorem C07_dissolved_le_applied : forall z (l : mineral_layer_in (T:=R)) (g : m
   let '(o, g') := mineral_layer z l g in mg_ums g <= mg_ums g' <= mg_dsumm g.
 Proof. exact ums_bounded_lemma. Qed.
 
+(* the frozen branch too, given the order of the parameters it interpolates between (what C15 establishes) *)
+Theorem C07_dissolved_le_applied_frozen : forall z (l : mineral_layer_in (T:=R)) (g : mineral_glob (T:=R)),
+  0 <= mg_ums g <= mg_dsumm g -> ml_tempbo l <= 0 ->
+  ml_wmin l < mg_wred g -> ml_w l < mg_porges0 g ->
+  let '(o, g') := mineral_layer z l g in mg_ums g <= mg_ums g' <= mg_dsumm g /\ mg_dsumm g' = mg_dsumm g.
+Proof. exact ums_bounded_frozen. Qed.
+
+(* EVERY reachable state of a run: whatever sequence of fertiliser events (mineral part >= 0), mineralisation calls
+   (any layer, either temperature branch) and measurement overwrites / run starts (both totals reset) a run performs,
+   dissolved fertiliser stays between 0 and fertiliser applied *)
+Theorem C07_dissolved_le_applied_run : forall (ops : list nop) (g : mineral_glob (T:=R)),
+  totals_inv g -> ops_ok g ops -> totals_inv (fold_left nstep ops g).
+Proof. exact run_totals_inv. Qed.
+
+Example C07_run_nonvacuous :
+  let g := {| mg_wred := 2/10; mg_porges0 := 4/10; mg_dsumm := 0; mg_ums := 0; mg_nh4sum := 0; mg_nh4ums := 0;
+              mg_n2onitsum := 0; mg_n2onitdaily := 0; mg_minsum := 0 |} in
+  totals_inv g /\ ops_ok g (OpFert 80 :: OpReset :: OpFert 40 :: nil).
+Proof. cbv zeta. unfold totals_inv. cbn. repeat split; lra. Qed.
+
 (* crop N uptake and fixation are credited on the first sub-step of a day and on no other:
    on sub-step 1 the uptake counters grow by exactly the (clamped) layer uptakes and the crop N sum additionally by
    the day's fixation while a crop grows; on every later sub-step both are unchanged *)
@@ -56,5 +76,7 @@ Print Assumptions C07_mineral_books.
 Print Assumptions C07_tillage_mixing_conserves.
 Print Assumptions C07_pools_nonneg.
 Print Assumptions C07_dissolved_le_applied.
+Print Assumptions C07_dissolved_le_applied_frozen.
+Print Assumptions C07_dissolved_le_applied_run.
 Print Assumptions C07_credited_once.
 Print Assumptions C07_mineral_n_nonneg.
